@@ -13,6 +13,7 @@ def die(msg):
 
 # (file, exact declaration header, replacement header) -- each must match exactly once.
 OS_RENAMES = [
+    ("tempfile.go", "\treturn strconv.FormatUint(uint64(uint32(runtime_rand())), 10)", "\treturn strconv.FormatUint(uint64(uint32(runtime_rand()+verifTempSeq.Add(1)*0x9E3779B1)), 10)"),
     ("file.go", "func (f *File) Read(b []byte) (n int, err error) {", "func (f *File) verifOrigRead(b []byte) (n int, err error) {"),
     ("file.go", "func (f *File) ReadAt(b []byte, off int64) (n int, err error) {", "func (f *File) verifOrigReadAt(b []byte, off int64) (n int, err error) {"),
     ("file.go", "func (f *File) ReadFrom(r io.Reader) (n int64, err error) {", "func (f *File) verifOrigReadFrom(r io.Reader) (n int64, err error) {"),
@@ -62,6 +63,11 @@ RUNTIME_RENAMES = [
     ("rand.go", "func rand() uint64 {\n", "func rand() uint64 {\n\tif verifDetRand {\n\t\treturn verifMapRand()\n\t}\n"),
     ("alg.go", "\t\thashkey[i] = uintptr(bootstrapRand())", "\t\thashkey[i] = uintptr(verifHashKey(i))"),
     ("alg.go", "\t\tkey[i] = bootstrapRand()", "\t\tkey[i] = verifHashKey(i)"),
+]
+
+# package time: Now reads the simulator's clock while one is installed
+TIME_RENAMES = [
+    ("time.go", "func Now() Time {", "func verifOrigNow() Time {"),
 ]
 
 # files that exist only in the overlay: export shims giving the harness the real unexported constructors
@@ -154,6 +160,7 @@ def main():
     patch_pkg(goroot, out, "sync", SYNC_RENAMES, "zz_verif_sync.go.txt", replace)
     patch_pkg(goroot, out, "runtime", RUNTIME_RENAMES, "zz_verif_runtime.go.txt", replace)
     patch_pkg(goroot, out, "net/http", [], "zz_verif_nethttp.go.txt", replace)
+    patch_pkg(goroot, out, "time", TIME_RENAMES, "zz_verif_time.go.txt", replace)
     repo = os.environ.get("VERIF_REPO", "/repo")
     os.makedirs(os.path.join(out, "shims"), exist_ok=True)
     for i, (dst, src) in enumerate(sorted(REPO_SHIMS.items())):
